@@ -225,8 +225,35 @@ pub fn install_panic_hook() {
             .unwrap_or_default();
         let msg = payload_to_string(info.payload());
         let quiet = QUIET.with(|q| *q.borrow());
-        LAST_PANIC.with(|p| *p.borrow_mut() = Some((msg, loc)));
+        LAST_PANIC.with(|p| *p.borrow_mut() = Some((msg.clone(), loc.clone())));
         if !quiet {
+            // Safety net: a panic of the code under test that escaped every
+            // `catch` of the monitor still becomes a violation record (with the
+            // phase and case for replay) instead of a dead shard.
+            if loc.starts_with("/repo/") {
+                let info = WD_INFO.lock().ok().and_then(|g| g.clone());
+                if let Some(wi) = info {
+                    let case = WD_CASE.load(Ordering::SeqCst);
+                    let mut replay = wi.base.clone();
+                    replay["phase"] = json!(wi.phase);
+                    replay["case"] = json!(case);
+                    let file = loc.split(':').next().unwrap_or("").trim_start_matches("/repo/").to_string();
+                    let v = json!({
+                        "property": wi.property,
+                        "uncaught_panic": true,
+                        "violations": [{
+                            "signature": format!("{}|panic|uncaught in phase {}|msg={}|in={}", wi.property, wi.phase, strip_numbers(&msg), file),
+                            "clause": "panic",
+                            "detail": {"message": msg, "location": loc, "phase": wi.phase, "case": case},
+                            "replay": replay,
+                            "count": 1,
+                        }],
+                    });
+                    let _ = std::fs::write(&wi.out, to_json(&v));
+                    eprintln!("uncaught panic of the code under test at {}: {}", loc, msg);
+                    std::process::exit(0);
+                }
+            }
             default(info);
         }
     }));
